@@ -250,6 +250,12 @@ func (v *Value) prettyStringInteral(rootValues []*Value, quote bool, checkCircul
 }
 
 func (v *Value) GetMember(member Value) (*Cell, error) {
+	return v.getMember(member, false)
+}
+
+// getMember looks a member up. Only a store (fill == true) extends an array
+// that is indexed past its end; a read yields nil and leaves the array alone.
+func (v *Value) getMember(member Value, fill bool) (*Cell, error) {
 	switch v.Tag {
 	case ValueArray:
 		if member.Tag != ValueNum && v.Proto != nil {
@@ -267,6 +273,10 @@ func (v *Value) GetMember(member Value) (*Cell, error) {
 		}
 
 		if index >= len(arr) {
+			if !fill {
+				return nil, nil
+			}
+
 			// TODO sparse arrays
 			// don't fill up to enormous numbers, just bail
 			if index > 1024*1024 {
@@ -326,7 +336,7 @@ func (v *Value) SetMember(member Value, cell *Cell) (*Cell, error) {
 			return nil, fmt.Errorf("array indices must be numbers")
 		}
 
-		item, err := v.GetMember(member)
+		item, err := v.getMember(member, true)
 		if err != nil {
 			return nil, err
 		}
